@@ -95,26 +95,29 @@ struct V3 { LD m = 0, p = 0, x = 0; };   // int rho dphi, int rho/R dphi, int si
 
 struct EL {
   LD a, f, b, e2, L, c2, Q, qp;
+  mutable long budget = 0;
   explicit EL(const Cfg& c) : a(c.a), f(c.f) {
     b = a * (1 - f); e2 = f * (2 - f); L = fmaxl(a, b);
-    qp = qfun(1.0L);
+    qp = qfun(1.0L, 0.0L);
     c2 = a * a * (1 - e2) * qp / 2;           // authalic radius squared
     Q = 0;
   }
-  // atanh(e x)/e for either sign of e^2
-  LD atanhee(LD x) const {
-    if (e2 > 0) { LD e = sqrtl(e2); return atanhl(e * x) / e; }
-    if (e2 < 0) { LD e = sqrtl(-e2); return atanl(e * x) / e; }
-    return x;
+  // w = 1 - e^2 sin^2(phi) without cancellation (s, c = sin, cos(phi))
+  LD wfun(LD s, LD c) const { return e2 > 0 ? (1 - e2) + e2 * c * c : 1 - e2 * s * s; }
+  // atanh(e s)/e for either sign of e^2; atanh(x) = log1p(x) - log(1 - x^2)/2 with 1 - x^2 = w
+  LD atanhee(LD s, LD c) const {
+    if (e2 > 0) { LD e = sqrtl(e2); return (log1pl(e * s) - logl(wfun(s, c)) / 2) / e; }
+    if (e2 < 0) { LD e = sqrtl(-e2); return atanl(e * s) / e; }
+    return s;
   }
-  LD qfun(LD s) const { return s / (1 - e2 * s * s) + atanhee(s); }     // q(phi)/(1-e2), s = sin(phi)
-  LD sinxi(LD s) const { return qfun(s) / qp; }
-  LD circle(LD s, LD c) const { return a * c / sqrtl(1 - e2 * s * s); }  // R = a cos(beta); s, c = sin, cos(phi)
+  LD qfun(LD s, LD c) const { return s / wfun(s, c) + atanhee(s, c); }     // q(phi)/(1-e2)
+  LD sinxi(LD s, LD c) const { return s < 0 ? -qfun(-s, c) / qp : qfun(s, c) / qp; }
+  LD circle(LD s, LD c) const { return a * c / sqrtl(wfun(s, c)); }        // R = a cos(beta)
   // integrand at colatitude th measured from the pole of the hemisphere (sin(phi) = cos(th) >= 0)
   V3 f3(LD th, bool monly) const {
-    LD st = sinl(th), ct = cosl(th), w = 1 - e2 * ct * ct;
+    LD st = sinl(th), ct = cosl(th), w = wfun(ct, st);
     V3 v; v.m = a * (1 - e2) / (w * sqrtl(w));
-    if (!monly) { v.p = (1 - e2) / (w * st); v.x = sinxi(ct) * v.p; }
+    if (!monly) { v.p = (1 - e2) / (w * st); v.x = sinxi(ct, st) * v.p; }
     return v;
   }
   V3 gl(LD t0, LD h, bool monly) const {
@@ -131,7 +134,7 @@ struct EL {
     const LD tol = 4e-18L;
     LD sm = fabsl(l.m + r.m), sp = fabsl(l.p + r.p);
     bool ok = dm <= tol * sm && (monly || (dp <= tol * sp && dx <= tol * sp));
-    if (ok || depth >= 60) {
+    if (ok || depth >= 60 || --budget <= 0) {
       acc.m += l.m + r.m; acc.p += l.p + r.p; acc.x += l.x + r.x;
       LD e = sm > 0 ? dm / sm : 0; if (!monly && sp > 0) e = fmaxl(e, fmaxl(dp, dx) / sp);
       err = fmaxl(err, e);
@@ -143,6 +146,7 @@ struct EL {
   // integral over the latitude band [la, lb], 0 <= la <= lb <= 90 (degrees, doubles) of one hemisphere
   V3 band(double la, double lb, bool monly, LD& err) const {
     V3 acc; if (!(lb > la)) return acc;
+    budget = 20000;
     LD t0 = ((LD)90 - (LD)lb) * DEGL, h = ((LD)lb - (LD)la) * DEGL;
     // a few initial panels so that the first comparison is meaningful
     int n0 = 1 + int(h / 0.25L);
@@ -171,20 +175,25 @@ static EL& ell(int ci) {
   return *E[ci];
 }
 
-// reference solution of the inverse problem from the defining expressions
+// reference quantities of the course between two points from the defining expressions
 // kind: 0 general, 1 equal latitudes (parallel), 2 one end at a pole, 3 opposite poles, 4 same pole, 5 coincident
-struct Ref { int kind = 0; LD s = 0, azi = 0, S = 0, qe = 0; bool hasazi = true, hasS = true; };
+struct Ref {
+  int kind = 0; LD s = 0, azi = 0, S = 0, qe = 0; bool hasazi = true, hasS = true;
+  LD dM = 0, psi12 = 0, rbar = 0, lam = 0, R2 = 0, cr = 0;     // meridian arc M2-M1, isometric difference, int rho / int rho/R, lon12 (rad), circle radius at point 2, c^2/(R2 L)
+};
 static Ref ref_inverse(const EL& E, double lat1, double lat2, LD lon12) {
-  Ref r; LD lam = lon12 * DEGL;
+  Ref r; LD lam = lon12 * DEGL; r.lam = lam;
   bool p1 = fabs(lat1) == 90, p2 = fabs(lat2) == 90;
+  { LD s2, c2; sincosdL(lat2, s2, c2); r.R2 = p2 ? 0 : E.circle(s2, c2); r.cr = p2 ? 4e3L : fminl(4e3L, E.c2 / (r.R2 * E.L)); }
   if (p1 && p2) {
     if (lat1 == lat2) { r.kind = 4; r.s = 0; r.hasazi = false; r.hasS = false; }
-    else { r.kind = 3; r.s = 2 * E.Q; r.azi = lat2 > lat1 ? 0 : 180; r.hasS = false; }
+    else { r.kind = 3; r.s = 2 * E.Q; r.dM = lat2 > lat1 ? 2 * E.Q : -2 * E.Q; r.azi = lat2 > lat1 ? 0 : 180; r.hasS = false; }
     return r;
   }
   if (p1 || p2) {
     r.kind = 2;
-    r.s = fabsl(E.merid(lat2) - E.merid(lat1));
+    r.dM = E.merid(lat2) - E.merid(lat1);
+    r.s = fabsl(r.dM);
     r.azi = lat2 > lat1 ? 0 : 180;
     r.S = E.c2 * lam * ((p2 ? lat2 : lat1) > 0 ? 1 : -1);
     return r;
@@ -192,17 +201,34 @@ static Ref ref_inverse(const EL& E, double lat1, double lat2, LD lon12) {
   if (lat1 == lat2) {
     LD s, c; sincosdL(lat1, s, c);
     r.kind = lon12 == 0 ? 5 : 1;
-    r.s = E.circle(s, c) * fabsl(lam);
+    r.rbar = E.circle(s, c);
+    r.s = r.rbar * fabsl(lam);
     r.azi = lon12 > 0 ? 90 : -90; r.hasazi = lon12 != 0;
-    r.S = E.c2 * lam * E.sinxi(s);
+    r.S = E.c2 * lam * E.sinxi(s, c);
     return r;
   }
   V3 v = E.between(lat1, lat2, false, r.qe);
-  LD rbar = v.m / v.p, psi12 = v.p;
-  r.s = rbar * hypotl(lam, psi12);
-  r.azi = atan2l(lam, psi12) / DEGL;
+  r.rbar = v.m / v.p; r.psi12 = v.p; r.dM = v.m;
+  r.s = r.rbar * hypotl(lam, r.psi12);
+  r.azi = atan2l(lam, r.psi12) / DEGL;
   r.S = E.c2 * lam * (v.x / v.p);
   return r;
+}
+// the defining expressions as end-point misses for a course (s, azi) between the points described by rf:
+//   mN  = | s cos(azi) - (M2 - M1) |                    meridian arc
+//   mE1 = Rw | lam12 - tan(azi) psi12 |                  isometric latitude (well conditioned for |tan azi| <= 1)
+//   mE2 = Rw | lam12 - s sin(azi) / Rbar |               parallel-circle form (well conditioned for |tan azi| >= 1)
+// Rw = circle radius at which the longitude miss is turned into a length (direct: at point 2; inverse: the smaller one)
+struct Miss { LD mN = -1, mE1 = -1, mE2 = -1; };
+static Miss misses(const Ref& rf, LD s, LD azi, LD Rw) {
+  Miss m; LD sa, ca; sincosdL(azi, sa, ca);
+  if (rf.kind == 4) return m;
+  m.mN = fabsl(s * ca - rf.dM);
+  if (rf.kind == 0 || rf.kind == 1 || rf.kind == 5) {
+    if (ca != 0 && rf.kind == 0) m.mE1 = Rw * fabsl(rf.lam - (sa / ca) * rf.psi12);
+    if (rf.rbar > 0) m.mE2 = Rw * fabsl(rf.lam - s * sa / rf.rbar);
+  }
+  return m;
 }
 
 // ------------------------------------------------------------------ quantisation helpers
@@ -242,7 +268,7 @@ static LD lateral(LD s, LD dazi_deg) { return fabsl(s) * fabsl(remainderl(dazi_d
 // distance on the surface between two nearby points (local metric, long double)
 static LD local_dist(const EL& E, double lat1, double lon1, double lat2, double lon2) {
   LD s, c; sincosdL(((LD)lat1 + lat2) / 2, s, c);
-  LD w = 1 - E.e2 * s * s, rho = E.a * (1 - E.e2) / (w * sqrtl(w)), R = E.a * c / sqrtl(w);
+  LD w = E.wfun(s, c), rho = E.a * (1 - E.e2) / (w * sqrtl(w)), R = E.a * c / sqrtl(w);
   return hypotl(rho * ((LD)lat2 - lat1) * DEGL, R * angdiffL(lon2, lon1) * DEGL);
 }
 
@@ -324,11 +350,22 @@ static double logu(vt::Rng& g, double lo, double hi) { return pow(10.0, g.uni(lo
 static double pm1(vt::Rng& g) { return g.coin() ? 1.0 : -1.0; }
 static double clamp90(double v) { return v > 90 ? 90 : v < -90 ? -90 : v; }
 
+// region tags of the inputs (structural, inputs only) used to match known findings:
+//   "pro-exact-eq"   exact mode, prolate, the course touches the band |lat| < 10 degrees
+//   "vobl-exact"     exact mode, very oblate (f >= 0.9)
+static const char* region(const Cfg& C, double lata, double latb) {
+  if (C.exact && C.f >= 0.9) return "vobl-exact";
+  if (C.exact && C.f < 0 && (fabs(lata) < 10 || fabs(latb) < 10 || lata * latb < 0)) return "pro-exact-eq";
+  return "none";
+}
+static int kappa(const Cfg& C) { double k = C.f > 0 ? 1 / (1 - C.f) : 1 - C.f; return int(floor(k + 0.5)); }   // max(a/b, b/a)
+static int series_edge(const Cfg& C) { return !C.exact && fabs(C.f) > 1.0 / 150 * (1 + 1e-12) ? 1 : 0; }
+
 static void rec_ell(int ci) {
   const EL& E = ell(ci); const Rhumb& r = rhumb(ci);
   LD A = 4 * PIL * E.c2;
   Geodesic gd(cfgs()[ci].a, cfgs()[ci].f);
-  Rec q; q.str("e", "ell").i("ci", ci).i("ex", cfgs()[ci].exact).i("fc", cfgs()[ci].fc)
+  Rec q; q.str("e", "ell").i("ci", ci).i("ex", cfgs()[ci].exact).i("fc", cfgs()[ci].fc).i("kap", kappa(cfgs()[ci]))
     .i("dA", qarea((LD)r.EllipsoidArea() - A, E)).i("dAE", qarea((LD)r.EllipsoidArea() - (LD)ellip(ci).Area(), E))
     .i("dAG", qarea((LD)r.EllipsoidArea() - (LD)gd.EllipsoidArea(), E))
     .i("dQ", qlen((LD)ellip(ci).QuarterMeridian() - E.Q, E))
@@ -348,16 +385,18 @@ static void rec_inv(int ci, int g, double lat1, double lon1, double lat2, double
   // (the sign of the returned azimuth) and the choice itself is judged by the separate law rh-tie-east
   if (string(tie) != "none") lon12 = signbit(o.azi12) ? -180 : 180;
   Ref rf = ref_inverse(E, lat1, lat2, lon12);
-  Rec r; r.str("e", "inv").i("ci", ci).i("ex", C.exact).i("fc", C.fc).i("g", g).str("in", hx({lat1, lon1, lat2, lon2}))
+  Rec r; r.str("e", "inv").i("ci", ci).i("ex", C.exact).i("fc", C.fc).i("kap", kappa(C)).i("se", series_edge(C)).i("g", g)
+    .str("in", hx({lat1, lon1, lat2, lon2})).str("reg", region(C, lat1, lat2))
     .str("tie", tie).i("sl", lon_sign(lon1, lon2)).i("rk", rf.kind)
     .i("cs", vt::cls(o.s12)).i("ca", vt::cls(o.azi12)).i("cS", vt::cls(o.S12))
     .i("azx", azx(o.azi12)).i("azs", sgnbit(o.azi12)).i("aq", qudeg(fabs(o.azi12)))
     .i("dlat", sgn(lat2 - lat1))
     .i("qe", vt::q1(rf.qe, 1e-20L)).i("sq", qppm(rf.s / E.L)).i("lq", qudeg(fabsl(lon12)));
   bool fin = std::isfinite(o.s12) && std::isfinite(o.azi12);
-  r.i("ds", fin ? qlen(fabsl((LD)o.s12 - rf.s), E) : -1);
-  r.i("dl", fin && rf.hasazi ? qlen(lateral(rf.s, (LD)o.azi12 - rf.azi), E) : -1);
-  r.i("da", fin && rf.hasazi ? qazi(fabsl(remainderl((LD)o.azi12 - rf.azi, 360.0L))) : -1);
+  LD Rw; { LD s1, c1; sincosdL(lat1, s1, c1); Rw = fminl(rf.R2, fabs(lat1) == 90 ? 0 : E.circle(s1, c1)); }   // weight of the E miss: the smaller circle radius
+  Miss m; if (fin) m = misses(rf, o.s12, o.azi12, Rw);
+  r.i("ds", std::isfinite(o.s12) ? qlen(fabsl((LD)o.s12 - rf.s), E) : -1);
+  r.i("mN", m.mN >= 0 ? qlen(m.mN, E) : -1).i("mE1", m.mE1 >= 0 ? qlen(m.mE1, E) : -1).i("mE2", m.mE2 >= 0 ? qlen(m.mE2, E) : -1);
   r.i("dS", std::isfinite(o.S12) && rf.hasS ? qarea(fabsl((LD)o.S12 - rf.S), E) : -1);
   // cross-class: Ellipsoid::MeridianDistance, IsometricLatitude, CircleRadius
   {
@@ -365,25 +404,30 @@ static void rec_inv(int ci, int g, double lat1, double lon1, double lat2, double
     LD sa, ca; sincosdL(o.azi12, sa, ca);
     LD dM = (LD)el.MeridianDistance(lat2) - (LD)el.MeridianDistance(lat1);
     r.i("eM", fin ? qlen(fabsl((LD)o.s12 * ca - dM), E) : -1);
-    LD dpsi = ((LD)el.IsometricLatitude(lat2) - (LD)el.IsometricLatitude(lat1));     // degrees
-    bool okp = fin && std::isfinite((double)dpsi) && rf.kind == 0;
-    r.i("eP", okp ? qlen(lateral(rf.s, (LD)o.azi12 - atan2l(lon12, dpsi) / DEGL), E) : -1);
+    LD dpsi = ((LD)el.IsometricLatitude(lat2) - (LD)el.IsometricLatitude(lat1)) * DEGL;     // radians
+    bool okp = fin && std::isfinite((double)dpsi) && rf.kind == 0 && ca != 0;
+    r.i("eP", okp ? qlen(Rw * fabsl(rf.lam - (sa / ca) * dpsi), E) : -1);
     r.i("eC", fin && rf.kind == 1 ? qlen(fabsl((LD)o.s12 - (LD)el.CircleRadius(lat1) * fabsl(lon12) * DEGL), E) : -1);
   }
   // exchange of the end points
   bool wfin = std::isfinite(w.s12) && std::isfinite(w.azi12);
   r.i("wcs", vt::cls(w.s12)).i("wca", vt::cls(w.azi12)).i("wcS", vt::cls(w.S12));
   r.i("rs", fin && wfin ? qlen(fabsl((LD)w.s12 - (LD)o.s12), E) : -1);
-  r.i("rl", fin && wfin ? qlen(lateral(rf.s, (LD)w.azi12 - (LD)o.azi12 - 180), E) : -1);
+  { LD sa, ca, sb, cb; sincosdL(o.azi12, sa, ca); sincosdL(w.azi12, sb, cb);
+    r.i("rN", fin && wfin ? qlen(fabsl((LD)w.s12 * cb + (LD)o.s12 * ca), E) : -1); }     // s cos(azi) changes sign
   r.i("rS", std::isfinite(o.S12) && std::isfinite(w.S12) ? qarea(fabsl((LD)w.S12 + (LD)o.S12), E) : -1);
+  r.i("was", sgnbit(w.azi12));
   // series == exact (the exact member of a pair is emitted right after the series member of the same problem)
   if (C.exact && pv.have) {
     bool xf = fin && std::isfinite(pv.inv.s12) && std::isfinite(pv.inv.azi12);
-    r.i("xs", xf ? qlen(fabsl((LD)o.s12 - (LD)pv.inv.s12), E) : -1);
-    r.i("xl", xf ? qlen(lateral(rf.s, (LD)o.azi12 - (LD)pv.inv.azi12), E) : -1);
-    r.i("xS", std::isfinite(o.S12) && std::isfinite(pv.inv.S12) ? qarea(fabsl((LD)o.S12 - (LD)pv.inv.S12), E) : -1);
-    r.b("xp", true);
-  } else r.i("xs", -1).i("xl", -1).i("xS", -1).b("xp", false);
+    LD sa, ca, sb, cb; sincosdL(o.azi12, sa, ca); sincosdL(pv.inv.azi12, sb, cb);
+    r.b("xp", true).i("xse", series_edge(cfgs()[ci - 1]))
+     .i("xs", xf ? qlen(fabsl((LD)o.s12 - (LD)pv.inv.s12), E) : -1)
+     .i("xN", xf ? qlen(fabsl((LD)o.s12 * ca - (LD)pv.inv.s12 * cb), E) : -1)
+     .i("xE", xf ? qlen(fabsl((LD)o.s12 * sa - (LD)pv.inv.s12 * sb), E) : -1)
+     .i("xS", std::isfinite(o.S12) && std::isfinite(pv.inv.S12) ? qarea(fabsl((LD)o.S12 - (LD)pv.inv.S12), E) : -1)
+     .b("xc", vt::cls(o.s12) == vt::cls(pv.inv.s12) && vt::cls(o.azi12) == vt::cls(pv.inv.azi12) && vt::cls(o.S12) == vt::cls(pv.inv.S12));
+  } else r.b("xp", false).i("xse", 0).i("xs", -1).i("xN", -1).i("xE", -1).i("xS", -1).b("xc", true);
   r.emit();
   pv.have = true; pv.inv = o;
 }
@@ -391,7 +435,8 @@ static void rec_inv(int ci, int g, double lat1, double lon1, double lat2, double
 static void rec_dir(int ci, int g, double lat1, double lon1, double azi12, double s12, Prev& pv) {
   const EL& E = ell(ci); const Cfg& C = cfgs()[ci];
   DirOut o = do_direct(ci, lat1, lon1, azi12, s12);
-  Rec r; r.str("e", "dir").i("ci", ci).i("ex", C.exact).i("fc", C.fc).i("g", g).str("in", hx({lat1, lon1, azi12, s12}))
+  Rec r; r.str("e", "dir").i("ci", ci).i("ex", C.exact).i("fc", C.fc).i("kap", kappa(C)).i("se", series_edge(C)).i("g", g)
+    .str("in", hx({lat1, lon1, azi12, s12})).str("reg", region(C, lat1, std::isfinite(o.lat2) ? o.lat2 : lat1))
     .i("cl", vt::cls(o.lat2)).i("cn", vt::cls(o.lon2)).i("cu", vt::cls(o.lon2u)).i("cS", vt::cls(o.S12))
     .b("pe", o.pe).b("ue", o.ue).b("pst", fabs(lat1) == 90).b("s0", s12 == 0)
     .b("rng", fabs(o.lat2) <= 90 && (std::isnan(o.lon2) || fabs(o.lon2) <= 180));
@@ -399,34 +444,38 @@ static void rec_dir(int ci, int g, double lat1, double lon1, double azi12, doubl
   LD sa, ca; sincosdL(azi12, sa, ca);
   LD M1 = E.merid(lat1), Mt = M1 + (LD)s12 * ca, Q = E.Q;
   LD Mr = remainderl(Mt, 4 * Q); if (Mr > Q) Mr = 2 * Q - Mr; else if (Mr < -Q) Mr = -2 * Q - Mr;
-  r.i("pm", qlen(fabsl(Mt) - Q, E)).i("sq", qppm(fabsl((LD)s12) / E.L));
+  r.i("pm", qlen(fabsl(Mt) - Q, E)).i("sq", qppm(fabsl((LD)s12) / E.L)).i("aq", qudeg(fabsl(remainderl(azi12, 360.0L))));
   r.i("dlp", std::isfinite(o.lat2) ? qlen(fabsl(E.merid(o.lat2) - Mr), E) : -1);
   bool fin = std::isfinite(o.lat2) && std::isfinite(o.lon2u) && std::isfinite(o.lon2);
   LD lon12u = (LD)o.lon2u - (LD)lon1;
-  r.i("du", fin ? qazi(fabsl(angdiffL(o.lon2u, o.lon2))) : -1);
+  { long long du = -1;
+    if (fin) { double sc = max(max(fabs(o.lon2u), fabs(lon1)), 180.0); double ul = nextafter(sc, 1e300) - sc;
+               du = vt::q1(fabsl(angdiffL(o.lon2u, o.lon2)) / ul, 1e-3L); }
+    r.i("du", du); }                                   // |lon2(unrolled) - lon2| mod 360 in units of 1e-3 ulp(max(|lon2u|, |lon1|, 180))
   r.i("lq", fin ? qudeg(fabsl(lon12u)) : -1);
   r.i("lonsg", fin ? sgn((double)lon12u) : 0).i("latsg", std::isfinite(o.lat2) ? sgn(o.lat2 - lat1) : 0)
    .i("sas", sgn((double)((LD)s12 * sa))).i("cas", sgn((double)((LD)s12 * ca)));
-  long long ds = -1, dl = -1, dS = -1, qe = 0, rk = -1, is = 0, il = -1, iS = -1, ics = -1, tiei = 0;
+  long long mE1 = -1, mE2 = -1, dS = -1, qe = 0, rk = -1, cr = -1, is = 0, iN = -1, iS = -1, ics = -1, tiei = 0;
   if (fin && fabs(lat1) != 90) {
     // defining expressions evaluated between the returned end points
     Ref rf = ref_inverse(E, lat1, o.lat2, lon12u);
-    rk = rf.kind; qe = vt::q1(rf.qe, 1e-20L);
-    LD sref = s12 < 0 ? -rf.s : rf.s, aref = s12 < 0 ? rf.azi + 180 : rf.azi;
-    ds = qlen(fabsl((LD)s12 - sref), E);
-    if (rf.hasazi) dl = qlen(lateral(rf.s, (LD)azi12 - aref), E);
+    rk = rf.kind; qe = vt::q1(rf.qe, 1e-20L); cr = qppm(rf.cr);
+    Miss m = misses(rf, s12, azi12, rf.R2);
+    if (m.mE1 >= 0) mE1 = qlen(m.mE1, E);
+    if (m.mE2 >= 0) mE2 = qlen(m.mE2, E);
     if (rf.hasS && std::isfinite(o.S12)) dS = qarea(fabsl((LD)o.S12 - rf.S), E);
     // direct followed by inverse
     InvOut v = do_inverse(ci, lat1, lon1, o.lat2, o.lon2);
     ics = vt::cls(v.s12) * 100 + vt::cls(v.azi12) * 10 + vt::cls(v.S12);
     if (std::isfinite(v.s12) && std::isfinite(v.azi12)) {
+      LD sb, cb; sincosdL(v.azi12, sb, cb);
       is = qlen((LD)v.s12 - fabsl((LD)s12), E);
-      il = qlen(lateral(s12, (LD)v.azi12 - (s12 < 0 ? (LD)azi12 + 180 : (LD)azi12)), E);
+      iN = qlen(fabsl((LD)v.s12 * cb - (LD)s12 * ca), E);
       if (std::isfinite(v.S12) && std::isfinite(o.S12)) iS = qarea(fabsl((LD)v.S12 - (LD)o.S12), E);
     }
     tiei = fabsl(fabsl(remainderl(lon12u, 360.0L)) - 180) < 1e-9L ? 1 : 0;
   }
-  r.i("rk", rk).i("qe", qe).i("ds", ds).i("dl", dl).i("dS", dS).i("ics", ics).i("is", is).i("il", il).i("iS", iS).i("tiei", tiei);
+  r.i("rk", rk).i("qe", qe).i("cr", cr).i("mE1", mE1).i("mE2", mE2).i("dS", dS).i("ics", ics).i("is", is).i("iN", iN).i("iS", iS).i("tiei", tiei);
   // additivity along the line: 0 -> s12/2 -> s12
   long long ap = -1, ad = -1;
   if (fin && fabs(lat1) != 90 && std::isfinite(o.S12)) {
@@ -442,11 +491,11 @@ static void rec_dir(int ci, int g, double lat1, double lon1, double azi12, doubl
   r.i("ap", ap).i("ad", ad);
   if (C.exact && pv.have) {
     bool xf = fin && std::isfinite(pv.dir.lat2) && std::isfinite(pv.dir.lon2u);
-    r.b("xp", true).b("xc", vt::cls(o.lon2) == vt::cls(pv.dir.lon2) && vt::cls(o.S12) == vt::cls(pv.dir.S12))
+    r.b("xp", true).i("xse", series_edge(cfgs()[ci - 1])).b("xc", vt::cls(o.lon2) == vt::cls(pv.dir.lon2) && vt::cls(o.S12) == vt::cls(pv.dir.S12))
      .i("xd", xf ? qlen(local_dist(E, o.lat2, o.lon2u, pv.dir.lat2, pv.dir.lon2u), E) : -1)
      .i("xS", xf && std::isfinite(o.S12) && std::isfinite(pv.dir.S12) ? qarea(fabsl((LD)o.S12 - (LD)pv.dir.S12), E) : -1)
      .i("xl2", std::isfinite(o.lat2) && std::isfinite(pv.dir.lat2) ? qlen(fabsl(E.merid(o.lat2) - E.merid(pv.dir.lat2)), E) : -1);
-  } else r.b("xp", false).b("xc", true).i("xd", -1).i("xS", -1).i("xl2", -1);
+  } else r.b("xp", false).i("xse", 0).b("xc", true).i("xd", -1).i("xS", -1).i("xl2", -1);
   r.emit();
   pv.have = true; pv.dir = o;
 }
